@@ -10,7 +10,11 @@
 //     with acknowledgement barriers, each step followed by targeted and random requests on the same
 //     keep-alive connections, and a three-way comparison model vs. server route tables (verif snapshot).
 //  2. history cases: concurrent registrars and traffic on a few contended triples; the recorded history
-//     (client-boundary call/return times) is checked with porcupine against the map model + specification.
+//     (client-boundary call/return times) is checked with porcupine against the map model + specification;
+//     state-independent pre-checks: no answer by a proxy whose close was acknowledged before the request was
+//     sent, no answer by a proxy whose route does not match the request.
+//  3. forced cases: a request is parked between route selection and backend dial (hook vhost.http.beforeDial,
+//     if present) while a more specific route is registered / the only route comes and goes.
 //
 // Every case has a server of its own (taken from a pool per configuration variant: separate vhost ports,
 // vhost ports shared with the control port, tcpmux passthrough on/off), so the catch-all route and the
@@ -150,7 +154,7 @@ func waitClean(s *srvInst) bool {
 
 func main() {
 	run = h.NewRun(prop, "exploration")
-	run.Rule = "table case = PRNG-generated colliding route table (exact / nested wildcard / catch-all / sub-domain hosts, overlapping locations, user restrictions; http, https, tcpmux; 2-3 owning sessions; one of 3 server configurations) x generated requests x a sequential close/re-register/drop history; history case = concurrent registrars and traffic over 2-4 contended triples with hook-point delays. distinct = distinct (normalised route table, request spelling, expected owner) evaluations plus distinct (history plan, interleaving signature)"
+	run.Rule = "table case = PRNG-generated colliding route table (exact / nested wildcard / catch-all / sub-domain hosts, overlapping locations, user restrictions; http, https, tcpmux; 2-3 owning sessions; one of 3 server configurations) x generated requests x a sequential close/re-register/drop history; history case = concurrent registrars and traffic over 2-4 contended triples with hook-point delays; forced case = 4 shapes of a route-table change between route selection and backend dial. distinct = distinct (normalised route table, request spelling, expected owner) evaluations plus distinct (history plan, interleaving signature)"
 	run.Assumptions = []string{
 		"the backend that served a request is identified by the ProxyName of the StartWorkConn message the scripted client received on that work connection",
 		"CloseProxy has no reply: a following Ping/Pong on the same session is the acknowledgement (frps handles a session's messages in order); a session drop is acknowledged when its run id left the session table (verif snapshot)",
@@ -166,12 +170,16 @@ func main() {
 
 	nTable := run.N(560, 6000)
 	nHist := run.N(240, 2400)
-	run.Parallel(nTable+nHist, 12, func(c *h.Case) {
+	nForced := run.N(24, 240)
+	run.Parallel(nTable+nHist+nForced, 12, func(c *h.Case) {
 		t0 := time.Now()
-		if c.Idx < nTable {
+		switch {
+		case c.Idx < nTable:
 			tableCase(c)
-		} else {
+		case c.Idx < nTable+nHist:
 			historyCase(c)
+		default:
+			forcedDialCase(c)
 		}
 		if d := time.Since(t0); d > 5*time.Second {
 			run.Count("slow_cases_over_5s", 1)
